@@ -7,7 +7,11 @@
 package ctl
 
 import (
+	"fmt"
+	"os"
+	"path/filepath"
 	"runtime"
+	"strings"
 	"sync"
 	"time"
 )
@@ -196,6 +200,8 @@ func HPoint(reason string) {
 }
 
 // LPoint is a library-level scheduling point (a shimmed sync / atomic operation).
+var traceL = os.Getenv("VERIF_CTL_TRACE") == "1"
+
 func LPoint() {
 	t := self()
 	if t == nil {
@@ -204,6 +210,19 @@ func LPoint() {
 	mu.Lock()
 	t.l++
 	lastAct = time.Now()
+	if traceL {
+		// development aid (VERIF_CTL_TRACE=1): where each counted point of each thread is
+		for d := 2; d < 8; d++ {
+			_, file, line, ok := runtime.Caller(d)
+			if !ok {
+				break
+			}
+			if !strings.Contains(file, "/verifrt/") && !strings.Contains(file, "/sync/") {
+				fmt.Fprintf(os.Stderr, "CTL-L thread=%d h=%d l=%d %s:%d\n", t.ID, t.h, t.l, filepath.Base(file), line)
+				break
+			}
+		}
+	}
 	s := head()
 	if s == nil || s.From != t.ID || s.Reason != "lpreempt" || s.H != t.h || s.L != t.l {
 		mu.Unlock()
